@@ -87,6 +87,8 @@ def main():
                     "check_result": {"judged_by": judge, "tier": r.get("tier"), "exit": chk.get("exit"), "violation_keys": keys,
                                      "summary": chk.get("summary", "")}})
                 json.dump(meta, open(f"{dst}/meta.json", "w"), indent=1)
+            if not ok:
+                status = "n/a (not a break on this HEAD: a later repair removed what it relied on)" if r.get("applies") else "n/a"
             why = "confirmed" if ok else ("NOT CONFIRMED (patch does not apply to HEAD)" if not r.get("applies") else "NOT CONFIRMED")
             rows.append((prop, label, why, status, ", ".join(keys[:3]), (meta.get("summary") or "")[:110], (meta.get("needs") or "")[:110]))
     with open(f"{OUT}/INDEX.md", "w") as fh:
